@@ -231,6 +231,31 @@ MUTANTS = [
  ('C09-7', 'C09', K + 'FileHandlers/Parser/ParseMCNPCell.py',
   "        if kws['density'] is not None:\n            density = normalize_float(kws['density'])",
   "        if kws['density'] is not None and material_id is None:\n            density = normalize_float(kws['density'])"),
+ # ---- C10
+ ('C10-1', 'C10', K + 'Composition/ConvertIsotope.py',
+  "    massNumber = str(int(isotope_id[-3:]))\n    atomicNumber = getattr(EIsotopeAtomicNumber, str(int(isotope_id[0:-3])))",
+  "    massNumber = str(int(isotope_id[-2:]))\n    atomicNumber = getattr(EIsotopeAtomicNumber, str(int(isotope_id[0:-3])))"),
+ ('C10-2', 'C10', K + 'FileHandlers/Writer/WriteT4Composition.py',
+  "                        nb_atom = 'NB_ATOM' if mat.nb_atom else ''",
+  "                        nb_atom = '' if mat.nb_atom else 'NB_ATOM'"),
+ ('C10-3', 'C10', K + 'Composition/ConstructCompositionT4.py',
+  "    total_fractions = fsum(float(normalize_float(frac))\n                           for _, frac in fractions)",
+  "    total_fractions = max(float(normalize_float(frac))\n                          for _, frac in fractions)"),
+ ('C10-4', 'C10', K + 'Composition/CCompositionMCNP.py',
+  "                # this is a keyword, skip it\n                i += 1",
+  "                # this is a keyword, skip it\n                i += 2"),
+ ('C10-5', 'C10', K + 'Composition/CompositionConversionMCNPToT4.py',
+  "            elif positive_fraction != atom_fracs:",
+  "            elif positive_fraction != positive_fraction:"),
+ ('C10-6', 'C10', K + 'Composition/CompositionConversionMCNPToT4.py',
+  "            if mass_number == '0':\n                mass_number_t4 = '-NAT'",
+  "            if mass_number == '00':\n                mass_number_t4 = '-NAT'"),
+ ('C10-7', 'C10', K + 'Composition/ConstructCompositionT4.py',
+  "            if fdensity < 0.0:\n                type_density_t4 = 'DENSITY'",
+  "            if fdensity < 0.1:\n                type_density_t4 = 'DENSITY'"),
+ ('C10-8', 'C10', K + 'Composition/CCompositionMCNP.py',
+  "            if \".\" in isotope:\n                isotope = isotope.split(\".\")[0]",
+  "            if \".\" in isotope:\n                isotope = isotope.split(\".\")[0][:-1] + '0'"),
 ]
 
 
